@@ -228,10 +228,12 @@ else:
             first = fl.events.index(ld[0]) if ld else len(fl.events)
             before = [r for r in rets if fl.events.index(r) < first]
             # the hit path, in either spelling: `if k in d: return d[k]`, or `try: return d[k]` / `except KeyError: <fall through>`
-            hit_if = [r for r in before if len(r.guards) == 1 and r.guards[0].positive and fl.tab.equal(r.guards[0].rf, member)]
+            # (for the `if` spelling the textual order of the two branches does not matter)
+            hit_if = [r for r in rets if len(r.guards) == 1 and guard_is(fl, r.guards[0], member, True)]
             hit_try = [r for r in before if not r.guards and r.trys and _only_keyerror(r.trys[-1], r.node)]
             if len(hit_if) + len(hit_try) != 1:
-                odd = [r for r in before if r not in hit_if and r not in hit_try]
+                odd = [r for r in before if r not in hit_if and r not in hit_try and
+                       not any(guard_is(fl, g_, member, False) for g_ in r.guards)]
                 if odd and not all(r.guards and r.guards[0].rf is not None and fmt(fl, r.guards[0].rf) in ('False', 'True')
                                    for r in odd):
                     raise AnalysisError('the path that serves a stored object is not recognised: %s' % [
@@ -242,7 +244,7 @@ else:
             elif hit_try and not hit_if:
                 if any(g.rf is not None and fl.tab.equal(g.rf, member) and g.positive for g in ld[0].guards):
                     why.append('%s() is not confined to the miss path' % loader)
-            elif not ld[0].guards or ld[0].guards[0].positive or not fl.tab.equal(ld[0].guards[0].rf, member):
+            elif not ld[0].guards or not guard_is(fl, ld[0].guards[0], member, False):
                 why.append('%s() is not confined to the miss path' % loader)
             if ld:
                 kw = ld[0].kw
